@@ -103,7 +103,9 @@ class P(Prop):
                             "power": power, "stored": stored, "fresh": rng.random() < 0.4,
                             "dt": [Fraction(rng.randint(1, 40) * 15) for _ in range(nst)], "kind": rng.choice(["engine", "engine", "cogas"]),
                             # the rule the masses are integrated with: per-interval sums, or trapezoid / Simpson on a fixed step
-                            "method": rng.choice(["sum_with_time", "sum_with_time", "trapezoid", "simpson"])})
+                            "method": rng.choice(["sum_with_time", "sum_with_time", "trapezoid", "simpson"]),
+                            "split": rng.random() < 0.5,                                   # COGAS with turbine power curves
+                            "spec": rng.choice(["IMO", "IMO", "FUEL_EU_MARITIME"])})       # GHG bookkeeping of the same calculation
                 if out[-1]["method"] != "sum_with_time" and out[-1]["stream"] == "mass":
                     nst2 = rng.choice([1, 1, 2] + list(range(3, 10)))       # a single operating point included
                     out[-1]["power"] = [Fraction(rng.randint(0, 80), 8) * 100 for _ in range(nst2)]
@@ -121,8 +123,12 @@ class P(Prop):
             return Engine(type_=TypeComponent.MAIN_ENGINE, name="e", rated_power=float(case.get("rated", 1000)),
                           rated_speed=float(case["speed"]), bsfc_curve=np.array([[0.25, 220.0], [1.0, 190.0]]),
                           nox_calculation_method=NOxCalculationMethod[case["tier"]], emissions_curves=em)
+        kw = {}
+        if case.get("split"):        # gas / steam turbine power curves given (the split of the output, not of the emissions)
+            kw = dict(gas_turbine_power_curve=np.array([[0.25, 180.0], [0.5, 340.0], [1.0, 650.0]]),
+                      steam_turbine_power_curve=np.array([[0.25, 70.0], [0.5, 160.0], [1.0, 350.0]]))
         return COGAS(name="c", rated_power=float(case.get("rated", 1000)), eff_curve=np.array([[0.25, 0.35], [1.0, 0.5]]),
-                     rated_speed=float(case["speed"]), nox_calculation_method=NOxCalculationMethod[case["tier"]], emissions_curves=em)
+                     rated_speed=float(case["speed"]), nox_calculation_method=NOxCalculationMethod[case["tier"]], emissions_curves=em, **kw)
 
     def run(self, case):
         from feems.components_model.utility import IntegrationMethod
@@ -157,13 +163,17 @@ class P(Prop):
                                   power_type=TypePower.POWER_SOURCE, switchboard_id=1, eff_curve=np.array([1.0]))
             comp = COGES("coges", eng, gen)
         comp.power_output = power
+        from feems.fuel import FuelSpecifiedBy
+        # the species masses do not depend on the GHG bookkeeping the same call is asked for (COGAS has no FuelEU factors)
+        spec_kw = {"fuel_specified_by": FuelSpecifiedBy[case.get("spec", "IMO")]} if case["kind"] == "engine" else {}
         method = case.get("method", "sum_with_time")
         if method == "sum_with_time":
             res = get_fuel_emission_energy_balance_for_component(
-                component=comp, time_interval_s=np.array([float(x) for x in case["dt"]]), integration_method=IntegrationMethod.sum_with_time)
+                component=comp, time_interval_s=np.array([float(x) for x in case["dt"]]), integration_method=IntegrationMethod.sum_with_time,
+                **spec_kw)
         else:
             res = get_fuel_emission_energy_balance_for_component(
-                component=comp, time_interval_s=float(case["dt"][0]), integration_method=IntegrationMethod[method])
+                component=comp, time_interval_s=float(case["dt"][0]), integration_method=IntegrationMethod[method], **spec_kw)
         load = np.abs(power) / float(case["rated"])
         return {"species": species,
                 "gkwh": [[float(x) for x in np.broadcast_to(np.atleast_1d(eng.emissions_g_per_kwh(EmissionType[sp], load)), load.shape)] for sp in species],
@@ -299,6 +309,9 @@ class P(Prop):
         t = ["stream=" + case["stream"], "kind=" + case["kind"], case["tier"]]
         if case["stream"] == "mass":
             t.append("integration=" + case.get("method", "sum_with_time"))
+            t.append("spec=" + case.get("spec", "IMO"))
+        if case.get("kind") == "cogas" and case.get("split") and case["stream"] in ("rate", "mass"):
+            t.append("cogas-with-turbine-power-curves")
         if case["stream"] == "limit":
             t.append("slow(<=130)" if float(case["speed"]) <= 130 else "power-law(>130)")
         else:
